@@ -8,7 +8,10 @@ use ahash::{AHashMap, HashMap};
 use log::{debug, error, info, trace, warn};
 use rayon::prelude::*;
 use tokio::sync::mpsc::Sender;
+#[cfg(not(saito_verif))]
 use tokio::sync::RwLock;
+#[cfg(saito_verif)]
+use crate::core::util::verif::RwLock;
 
 use crate::core::consensus::block::{Block, BlockType};
 use crate::core::consensus::blockring::BlockRing;
@@ -1134,6 +1137,8 @@ impl Blockchain {
             old_chain.len()
         );
 
+        #[cfg(saito_verif)]
+        crate::core::util::verif::validate_begin(new_chain.len(), old_chain.len());
         let previous_block_hash;
         let mut wallet_update_status = WALLET_NOT_UPDATED;
         let has_gt;
@@ -1160,6 +1165,8 @@ impl Blockchain {
             let mut result: WindingResult =
                 WindingResult::Wind(new_chain.len() - 1, false, WALLET_NOT_UPDATED);
             loop {
+                #[cfg(saito_verif)]
+                crate::core::util::verif::validate_step();
                 match result {
                     WindingResult::Wind(current_wind_index, wind_failure, wallet_status) => {
                         wallet_update_status |= wallet_status;
@@ -1202,6 +1209,8 @@ impl Blockchain {
         } else if !new_chain.is_empty() {
             let mut result = WindingResult::Unwind(0, true, old_chain.to_vec(), WALLET_NOT_UPDATED);
             loop {
+                #[cfg(saito_verif)]
+                crate::core::util::verif::validate_step();
                 match result {
                     WindingResult::Wind(current_wind_index, wind_failure, wallet_status) => {
                         wallet_update_status |= wallet_status;
